@@ -12,6 +12,7 @@ import (
 	"sort"
 	"strings"
 	"sync"
+	"sync/atomic"
 	"time"
 
 	"github.com/youzan/ZanRedisDB/engine"
@@ -70,8 +71,11 @@ func shrink(seq *Sequence, typ, dir, sig string, budget int) (*Sequence, *Findin
 			return nil
 		}
 		budget--
-		fs, err := runSequence(s, typ, dir, newStats(), 64, nil)
+		fs, _, err := runWithWatchdogT(s, typ, dir, newStats(), 64, 30*time.Second)
 		if err != nil {
+			if err == errWatchdog {
+				budget = 0 // an engine call hangs: stop shrinking
+			}
 			return nil
 		}
 		return hasSig(fs, sig)
@@ -216,6 +220,10 @@ func inspectHang(gid string) hangInfo {
 // runWithWatchdog runs one sequence; an engine call that never returns must
 // not wedge the whole check.
 func runWithWatchdog(seq *Sequence, typ, dir string, st *Stats, maxFind int) ([]Finding, *hangInfo, error) {
+	return runWithWatchdogT(seq, typ, dir, st, maxFind, seqWatchdog)
+}
+
+func runWithWatchdogT(seq *Sequence, typ, dir string, st *Stats, maxFind int, timeout time.Duration) ([]Finding, *hangInfo, error) {
 	type res struct {
 		fs  []Finding
 		err error
@@ -231,7 +239,7 @@ func runWithWatchdog(seq *Sequence, typ, dir string, st *Stats, maxFind int) ([]
 	select {
 	case r := <-ch:
 		return r.fs, nil, r.err
-	case <-time.After(seqWatchdog):
+	case <-time.After(timeout):
 		hi := inspectHang(gid)
 		return nil, &hi, errWatchdog
 	}
@@ -249,6 +257,28 @@ func runC20(c *vc.Ctx) error {
 	c.Ev.Assume("not generated: DeleteRange with start > end or nil end, Merge on values that are not 8-byte counters, keys > 400 bytes, raw Seek walks on iterators created with bounds (no caller does that), Next/Prev on an invalid iterator, reopening an engine")
 	c.Ev.Assume("atomic visibility is checked inside one iterator / snapshot iterator; MultiGetBytes is a loop of independent gets in both engines and its torn observations are counted in evidence only")
 
+	guardStop := make(chan struct{})
+	defer close(guardStop)
+	var peakRSS int64
+	go func() { // safety net: abort without verdict rather than endanger the machine
+		for {
+			select {
+			case <-guardStop:
+				return
+			case <-time.After(200 * time.Millisecond):
+			}
+			r := rssBytes()
+			if r > atomic.LoadInt64(&peakRSS) {
+				atomic.StoreInt64(&peakRSS, r)
+			}
+			if r > 6<<30 {
+				fmt.Printf("INCONCLUSIVE property=%s resident set %d MiB exceeds the 6 GiB guard; aborting without verdict\n", c.ID, r>>20)
+				os.RemoveAll(c.Scratch)
+				os.Exit(2)
+			}
+		}
+	}()
+	defer func() { c.Ev.Set("peak_resident_set_mib", atomic.LoadInt64(&peakRSS)>>20) }()
 	nSeq := c.Pick(1500, 50000)
 	itersPerPhase := 36
 	total := newStats()
